@@ -109,7 +109,7 @@ CHECKS.update({
   level="model_checking",
   technique="explicit-state BFS over call histories (Exec/Unmarshal/BuildExpr on shared objects) with state de-duplication; every transition replayed on fresh real objects; deep reflective fingerprints as invariant",
   text="States are the contents/length/capacity of two caller-held node-set slots on two documents; 150+ operations per state (39 menu expressions from 3 context nodes, results optionally kept - also re-sliced with spare capacity -, Unmarshal, BuildExpr); depth 2 (quick) / 3 (thorough). After every call: fingerprints (unexported fields, spare capacity, cyclic pointers) of the tree, both slots' full-capacity views, all compiled expressions and the caller's maps unchanged; the result equals the same call's result in every other history; reused compiled expression = freshly built one.",
-  note="BuildExpr repeatability over the parser's internal (map-iteration) ordering is only sampled (3 builds of every C08 AST), not enumerated.",
+  note="BuildExpr repeatability over the parser's internal (map-iteration) ordering is enumerated at deviation bound 1: every ambiguous alternative list of every built C08 query is rotated so that each alternative comes first once (reflection on the parse forest, no hook); simultaneous deviations in two lists are not enumerated.",
   ref="2 C13"),
  "C14": dict(
   level="model_checking",
